@@ -228,12 +228,9 @@ func c11Flag(e *Env, loop, try *ssa.Function) {
 		}
 		// the arguments may be read back from the fields they were just published into (same critical section)
 		ch, isCh := core.Resolve(core.ForwardFieldLoad(core.Arg(goI, 1))).(*ssa.MakeChan)
-		fl, isFl := core.Resolve(core.ForwardFieldLoad(core.Arg(goI, 2))).(*ssa.Call)
-		fresh := isCh && isFl && strings.HasSuffix(core.CalleeName(fl), "atomic.NewBool")
-		if fresh {
-			b, isB := core.ConstBool(core.Arg(fl, 0))
-			fresh = isB && b
-		}
+		fl := core.Resolve(core.ForwardFieldLoad(core.Arg(goI, 2)))
+		isFl := freshTrueFlag(fl)
+		fresh := isCh && isFl
 		e.R.Check(fresh, rule, "net/client.ReceivedMessageReader.TryToReplaceLoop:fresh-state", e.pos(goI), "the replacement loop gets a stop channel and a reading flag (true) created in this call", "the replacement loop shares its stop channel or reading flag with the loop it replaces: the old loop's late Store(true) would make the next nested request skip the replacement")
 		// both published into private.* and the old channel closed before
 		pubCh, pubFl := false, false
@@ -424,7 +421,7 @@ func c11OwnMID(e *Env) {
 			continue
 		}
 		k, isK := core.ConstInt(cmp.Y)
-		sub, isSub := core.Unwrap(cmp.X).(*ssa.BinOp)
+		sub, isSub := core.Resolve(core.Unwrap(cmp.X)).(*ssa.BinOp) // (through a small distance helper)
 		if !isK || !isSub || sub.Op != token.SUB {
 			continue
 		}
@@ -459,4 +456,30 @@ func c11OwnMID(e *Env) {
 		}
 	}
 	e.R.Check(okStep, rule, "udp/client.Conn.checkMyMessageID:step", e.fpos(f), fmt.Sprintf("near edge: compare-and-swap to old + k with %d ≤ k ≤ %d", thr, 0xffff-thr), "on the near edge the counter is not moved by a step that takes it out of the near window")
+}
+
+// freshTrueFlag: v is a boolean flag object created here and set to true before it is shared: atomic.NewBool(true), or a fresh
+// atomic.Bool variable (new / &local, zero = false) on which Store(true) is called in the creating function.
+func freshTrueFlag(v ssa.Value) bool {
+	switch x := v.(type) {
+	case *ssa.Call:
+		if strings.HasSuffix(core.CalleeName(x), "atomic.NewBool") {
+			b, isB := core.ConstBool(core.Arg(x, 0))
+			return isB && b
+		}
+	case *ssa.Alloc:
+		if !strings.HasSuffix(core.TypeName(x.Type()), "atomic.Bool") {
+			return false
+		}
+		set := false
+		for _, u := range core.Referrers(x) {
+			if c, ok := u.(*ssa.Call); ok && strings.HasSuffix(core.CalleeName(c), "atomic.Bool.Store") && len(c.Call.Args) == 2 && c.Call.Args[0] == ssa.Value(x) {
+				if b, isB := core.ConstBool(c.Call.Args[1]); isB && b {
+					set = true
+				}
+			}
+		}
+		return set
+	}
+	return false
 }
